@@ -1,5 +1,6 @@
 import Srctools.Proofs.C11
 import Srctools.Proofs.C11Ent
+import Srctools.Proofs.C11Lumps
 import Srctools.Gen.Tok
 import Srctools.Gen.Bspfmt
 /-!
@@ -18,6 +19,13 @@ Property theorems only.  Three kinds:
 -/
 namespace C11
 open StructCodec Gen.Bspfmt
+
+instance {ε α : Type} [DecidableEq ε] [DecidableEq α] : DecidableEq (Except ε α) := fun a b =>
+  match a, b with
+  | .ok x, .ok y => if h : x = y then isTrue (by rw [h]) else isFalse (fun e => h (Except.ok.inj e))
+  | .error x, .error y => if h : x = y then isTrue (by rw [h]) else isFalse (fun e => h (Except.error.inj e))
+  | .ok _, .error _ => isFalse (fun e => by cases e)
+  | .error _, .ok _ => isFalse (fun e => by cases e)
 
 /-! ## helpers for the obligations (decidable, evaluated by the kernel) -/
 
@@ -360,6 +368,116 @@ theorem C11_visibility (pvs pas : List Bytes) (data : Bytes)
   vis_roundtrip pvs pas data hp ha h
 
 
+
+/-! ## lumps with cross references: faces, brushes + sides, leafs, nodes
+
+Objects are object numbers, tables are lists of them (`Model/C11Lumps.lean`); the writers run their
+`find_or_insert` / `find_or_extend` closures as coded.  Each theorem has two layers: the records
+survive `pack` with the writer's format / `iter_unpack` with the reader's format of the layout table
+extracted from `bsp.py` (`hpair`, `hshape`: decide-obligations `C11_gen_xref_shapes` below), and the
+indices in them are resolved by the reader — against the tables as they are after this writer or after
+any later appends by other writers — to the very objects that were written. -/
+
+/-- byte layer for any lump whose records all have the shape list `shp` -/
+theorem C11_lump_bytes (p : Pair) (hp : p ∈ pairs) (fr fw : Fmt)
+    (hr : wireCat p.reader = some fr) (hw : wireCat p.writer = some fw) (hne : p.writer.isEmpty = false)
+    (hs : 0 < size fw) (shp : List Shape) (hshape : canonicalS fw shp = true)
+    (recs : List (List Val)) (hrec : ∀ r ∈ recs, r.map Val.shape = shp) (bs : Bytes)
+    (h : recsWrite fw recs = .ok bs) : recsRead fr bs = .ok recs :=
+  C11_flat_lump p hp fr fw hr hw hne hs recs bs h
+    (fun r hr' => by rw [canonical_shapes, hrec r hr']; exact hshape)
+
+/-- The record shapes of the four lumps are canonical for the format of every layout table of the
+current source (Vitamin faces are a different record and not covered). -/
+def xrefShapesOK : Bool :=
+  pairs.all (fun p =>
+    match wireCat p.writer with
+    | none => false
+    | some fw =>
+      let vit := p.layout == "LUMP_LAYOUT_VITAMIN"
+      let bs : Shape := if p.layout == "LUMP_LAYOUT_CHAOS" then .f32 else .int
+      let amb := p.layout == "LUMP_LAYOUT_V19"
+      if p.record == "faces" then vit || canonicalS fw faceShapes
+      else if p.record == "brushes" then canonicalS fw brushShapes
+      else if p.record == "brushsides" then canonicalS fw (sideShapes vit)
+      else if p.record == "leafs" then canonicalS fw (leafShapes ⟨vit, amb, 0⟩ bs)
+      else if p.record == "nodes" then canonicalS fw (nodeShapes (if vit then .int else bs))
+      else true)
+
+theorem C11_gen_xref_shapes : xrefShapesOK = true := by decide +kernel
+
+/-- **Faces / hdr_faces / orig_faces lumps** (non-Vitamin). `uo` = the lump references orig faces.
+Hypotheses: every split face has an orig face, a texinfo and a hammer id (`FaceV.ok`, the excluded
+class of the open finding `face-none-refs`), orig-lump faces have none; light styles have 4 bytes. -/
+theorem C11_faces (p : Pair) (hp : p ∈ pairs) (fr fw : Fmt)
+    (hr : wireCat p.reader = some fr) (hw : wireCat p.writer = some fw) (hne : p.writer.isEmpty = false)
+    (hs : 0 < size fw) (hshape : canonicalS fw faceShapes = true)
+    (uo : Bool) (t t' final : FaceTabs) (fs : List FaceV) (recs : List (List Val)) (hids : List Int) (bs : Bytes)
+    (hok : ∀ f ∈ fs, f.ok uo) (h4 : ∀ f ∈ fs, f.lightStyles.length = 4)
+    (hwr : writeFaces true uo t fs = .ok (recs, hids, t')) (hb : recsWrite fw recs = .ok bs) (hle : t'.le final) :
+    ∃ recs', recsRead fr bs = .ok recs' ∧ readFaces uo final hids recs' = .ok fs :=
+  ⟨recs, C11_lump_bytes p hp fr fw hr hw hne hs faceShapes hshape recs (writeFaces_shape uo t t' fs recs hids h4 hwr) bs hb,
+   (faces_roundtrip uo t t' final fs recs hids hok hwr hle).1⟩
+
+/-- The open finding `face-none-refs`, at model level: a split face without orig face and texinfo
+is written with `-1` twice and read back as the *last* orig face / texinfo. -/
+theorem C11_faces_none_refs_fail :
+    let f : FaceV := FaceV.mk 10 true false [] none (-1) 0 [0, 0, 0, 0] 0 0 0 0 1 1 none [] true 0 none
+    let t : FaceTabs := { texinfo := [20], planes := [10], surfedges := [], prims := [], origFaces := [30] }
+    (match writeFaces true true t [f] with
+     | .ok (recs, hids, t') => readFaces true t' hids recs
+     | .error e => .error e) = .ok [{ f with texinfo := some 20, origFace := some 30 }] := by
+  decide +kernel
+
+/-- **Brushes + brush sides.** Sides shared between brushes (the local side table is built with
+`find_or_extend`) come back as equal side values; outside VitaminSource the unknown bevel bits must
+not use bit 0 (`SideV.ok`). -/
+theorem C11_brushes (vit : Bool) (sd : Nat → SideV) (hsd : ∀ x, (sd x).ok vit) (t final : BrushTabs) (bs : List BrushV)
+    (hp : (writeBrushes true vit sd t bs).2.2.planes <+: final.planes)
+    (ht : (writeBrushes true vit sd t bs).2.2.texinfo <+: final.texinfo) :
+    readBrushes vit final (writeBrushes true vit sd t bs).1 (writeBrushes true vit sd t bs).2.1
+      = .ok (bs.map fun b => (b.contents, b.sides.map sd)) :=
+  (brushes_roundtrip vit sd hsd t final bs hp ht).1
+
+/-- **Leafs + leaf faces + leaf brushes + min-dist-to-water.** The flags must fit below the area
+(`LEAF_AREA_OFFSET`), the ambient bytes are all zero where the layout does not store them. -/
+theorem C11_leafs (c : LeafCfg) (t final : LeafTabs) (ls : List LeafV) (hok : ∀ l ∈ ls, l.ok c)
+    (hF : (writeLeafs c t ls).2.2.2.2.faces <+: final.faces)
+    (hB : (writeLeafs c t ls).2.2.2.2.brushes <+: final.brushes) :
+    readLeafs c final (writeLeafs c t ls).1 (writeLeafs c t ls).2.1 (writeLeafs c t ls).2.2.1 (writeLeafs c t ls).2.2.2.1
+      = .ok ls :=
+  (leafs_roundtrip c t final ls hok hF hB).1
+
+/-- **Nodes.** The loop over the growing node list (children that are not in the list are appended
+and written too): every node of the final list is read back with its plane, faces and children. -/
+theorem C11_nodes (nd : Nat → NodeV) (fuel : Nat) (nodes nodes' : List Nat) (t t' final : NodeTabs)
+    (recs : List (List Val)) (h : writeNodes true nd fuel nodes t = some (recs, nodes', t'))
+    (hp : t'.planes <+: final.planes) (hl : t'.leafs <+: final.leafs) (hf : t'.faces <+: final.faces) :
+    readNodes final nodes' recs = .ok (nodes'.map nd) ∧ nodes <+: nodes' :=
+  ⟨(nodes_roundtrip nd fuel nodes nodes' t t' final recs h hp hl hf).1,
+   (nodes_roundtrip nd fuel nodes nodes' t t' final recs h hp hl hf).2.1⟩
+
+/-- the records of brushes, sides, leafs and nodes have the shapes `C11_gen_xref_shapes` speaks about
+(so `C11_lump_bytes` applies to them) -/
+theorem C11_xref_record_shapes (vit : Bool) (sd : Nat → SideV) (t : BrushTabs) (bs : List BrushV)
+    (c : LeafCfg) (sh : Shape) (lt : LeafTabs) (ls : List LeafV) (hls : ∀ l ∈ ls, l.shapeOk c sh)
+    (nd : Nat → NodeV) (hnd : ∀ x, (nd x).shapeOk sh) (fuel : Nat) (nodes nodes' : List Nat) (nt nt' : NodeTabs)
+    (nrecs : List (List Val)) (hn : writeNodes true nd fuel nodes nt = some (nrecs, nodes', nt')) :
+    (∀ r ∈ (writeBrushes true vit sd t bs).1, r.map Val.shape = brushShapes) ∧
+    (∀ r ∈ (writeBrushes true vit sd t bs).2.1, r.map Val.shape = sideShapes vit) ∧
+    (∀ r ∈ (writeLeafs c lt ls).1, r.map Val.shape = leafShapes c sh) ∧
+    (∀ r ∈ nrecs, r.map Val.shape = nodeShapes sh) := by
+  refine ⟨writeBrushRecs_shape bs _, writeSideRecs_shape vit sd _ _ _, writeLeafsAux_shape c sh ls _ hls, ?_⟩
+  unfold writeNodes at hn
+  cases hr : writeNodesAux true nd fuel 0 (NodeSt.mk (Finder.mk' idKey nodes) (Finder.mk' idKey nt.planes)
+      (Finder.mk' idKey nt.leafs) (EFinder.mk' idKey nt.faces)) with
+  | none => simp [hr] at hn
+  | some q =>
+    obtain ⟨rs, s⟩ := q
+    simp only [hr, Option.some.injEq, Prod.mk.injEq] at hn
+    obtain ⟨rfl, _⟩ := hn
+    exact writeNodesAux_shape nd sh hnd fuel 0 _ s rs hr
+
 /-! ## (iv) entity lump -/
 
 /-- the tokenizer tables of the current source: NUL is no operator and may occur in a bare string
@@ -402,13 +520,6 @@ theorem C11_ents_comma_param_lost :
   decide +kernel
 
 /-! ## non-vacuity -/
-
-instance {ε α : Type} [DecidableEq ε] [DecidableEq α] : DecidableEq (Except ε α) := fun a b =>
-  match a, b with
-  | .ok x, .ok y => if h : x = y then isTrue (by rw [h]) else isFalse (fun e => h (Except.ok.inj e))
-  | .error x, .error y => if h : x = y then isTrue (by rw [h]) else isFalse (fun e => h (Except.error.inj e))
-  | .ok _, .error _ => isFalse (fun e => by cases e)
-  | .error _, .ok _ => isFalse (fun e => by cases e)
 
 example : pack [.i16, .pad 2, .str 4, .f32, .bool] [.int (-2), .bytes [1, 2, 3, 4], .f32 0x3f800000, .bool true]
     = .ok [0xfe, 0xff, 0, 0, 1, 2, 3, 4, 0, 0, 0x80, 0x3f, 1] := by decide +kernel
